@@ -231,7 +231,70 @@ func packageInitHook(e *sym.Exec, pkg *ssa.Package) {
 	}
 }
 
-func runSelftest() int { return 0 }
+// runSelftest is the translator validation: harnesses with every input fixed are run
+// by the symbolic executor (then a plain SSA interpreter) and natively; both must record
+// exactly the same sequence of values.
+func runSelftest() int {
+	units := []*Unit{
+		staticUnit("runtime", "runtime", "runtime_self.go.txt"),
+		staticUnit("testpb", "testpb", "testpb_self.go.txt"),
+		staticUnit("support/timepb", "timepb", "timepb_self.go.txt"),
+	}
+	l, err := sym.Load(repoDir, []string{"./runtime", "./testpb", "./support/timepb"}, overlayFor(units), os.Environ())
+	if err != nil {
+		fmt.Println("selftest: load failed:", err)
+		return 2
+	}
+	fns := l.Harnesses(regexp.MustCompile("^VH_SELF_"))
+	cfg := sym.Config{MaxLoop: 5000, RepoPrefix: repoMod}
+	res, err := sym.RunAll(l, fns, 4, "z3", 60000, cfg, sym.Hooks{PackageInit: packageInitHook}, nil)
+	if err != nil {
+		fmt.Println("selftest:", err)
+		return 2
+	}
+	bad := 0
+	total := 0
+	for i, f := range fns {
+		r := res[i]
+		if len(r.Inconclusive) > 0 || len(r.Violations) > 0 || r.Paths != 1 {
+			fmt.Printf("selftest: %s did not run as one concrete path: paths=%d %v\n", f.Name(), r.Paths, r.Inconclusive)
+			bad++
+			continue
+		}
+		var u *Unit
+		for _, x := range units {
+			if pkgDirOf(l, f.Pkg.Pkg.Path()) == x.PkgDir {
+				u = x
+			}
+		}
+		out := nativeReplayRaw(&ReplayFile{Harness: f.Name(), PkgDir: u.PkgDir, PkgName: u.PkgName, Files: u.Files, Model: map[string]string{}})
+		var native []string
+		for _, line := range strings.Split(out, "\n") {
+			if strings.HasPrefix(line, "VHREC ") {
+				native = append(native, strings.TrimPrefix(line, "VHREC "))
+			}
+		}
+		total += len(native)
+		if len(native) == 0 || len(native) != len(r.Records) {
+			fmt.Printf("selftest: %s: %d native records vs %d engine records\n", f.Name(), len(native), len(r.Records))
+			bad++
+			continue
+		}
+		for k := range native {
+			if native[k] != r.Records[k] {
+				fmt.Printf("selftest: %s record %d differs: native %q engine %q\n", f.Name(), k, native[k], r.Records[k])
+				bad++
+				break
+			}
+		}
+	}
+	if bad > 0 {
+		fmt.Println("selftest FAILED: the executor disagrees with the native build; nothing it says is believed")
+		return 1
+	}
+	fmt.Printf("selftest ok: %d harnesses, %d recorded values agree between the executor and the native build\n", len(fns), total)
+	return 0
+}
 
 func getenv(k string) string { return os.Getenv(k) }
 func writeFile(p, c string) {
